@@ -240,13 +240,32 @@ void vf_run(const uint8_t *data, size_t len)
         nops++;
         bool shape = g_want_state ? my >= last_idx : (H.held.size() <= 40 || (my % 16) == 15);
         Obs oa, ob;
-        apply(H, cx, op, a, b, K, maxlive, twin ? &oa : nullptr, shape);
-        if (twin) {
-            apply(HW, cx, op, a, b, K, maxlive, &ob, shape);
-            CHECK(oa == ob, "C15.heap.reuse", "after clear the heap behaves differently from a freshly initialised one (op %s)", OPN[op]);
+        bool first_clear = c15 && op == CLEAR && !twin;
+        if (!twin && !first_clear) { apply(H, cx, op, a, b, K, maxlive, nullptr, shape); continue; }
+        bool okA = model_ok([&] { apply(H, cx, op, a, b, K, maxlive, &oa, shape); }), okB;
+        if (first_clear) {
+            twin = true;
+            TRACE("twin created");
+            // state right after the clear vs a freshly initialised heap
+            auto probe = [&](Heap &hp, Obs &o) {
+                size_t sz; const void *g;
+                LIB(sz = cstl_heap_size(&hp.h));
+                LIB(g = cstl_heap_get(&hp.h));
+                o.push_back((long)sz);
+                o.push_back(g ? 1 : 0);
+            };
+            oa.clear();
+            probe(H, oa);
+            probe(HW, ob);
+            okB = true;
+        } else {
+            okB = model_ok([&] { apply(HW, cx, op, a, b, K, maxlive, &ob, shape); });
             cx.reuse = true;
         }
-        if (op == CLEAR && c15 && !twin) { twin = true; TRACE("twin created"); }
+        CHECK(okA == okB, "C15.heap.reuse", "after clear the heap %s the heap model where a freshly initialised one %s (op %s)",
+              okA ? "satisfies" : "violates", okB ? "satisfies it" : "does not", OPN[op]);
+        if (!okA) throw Abandon{"C07.(cleared heap and fresh twin alike)"};
+        CHECK(oa == ob, "C15.heap.reuse", "after clear the heap behaves differently from a freshly initialised one (op %s)", OPN[op]);
     }
     g_cur_op = "final";
     if (g_prop == "C07" || g_prop.empty()) shape_check(H);
